@@ -62,7 +62,7 @@ func (d *Driver) expectedFor(c *ClientState, i int) Expected {
 	case "single":
 		var fin, last *CmdRec
 		for _, r := range d.recsFor(rq.Tok) {
-			if r.Kind == "data" {
+			if r.Kind == "data" && r.Name == rq.Cmd {
 				last = r
 				if r.Released {
 					fin = r
